@@ -26,6 +26,29 @@ THEOREMS = [
     'CpProofs.C17.size_chunks',
     'CpProofs.C17.rd32_le32',
     'CpProofs.C17.C17_gzip_roundtrip',
+    'CpProofs.C17.zStored_lawful',
+    'CpProofs.C17.C17_gzip_header',
+    'CpProofs.C17.setVary_contains',
+    'CpProofs.C17.C17_gzip_labels',
+    'CpProofs.C17.C17_passthrough',
+    'CpProofs.C17.C17_compress_only_if_accepted',
+    'CpProofs.C17.C17_406_only_if_refused',
+    'CpProofs.C17.C17_406_only_if_refused_header',
+    'CpProofs.C17.unrepaired_406_full_false',
+    'CpProofs.C17.sortAsc_perm',
+    'CpProofs.C17.sortAsc_sorted',
+    'CpProofs.C17.acceptElements_descending',
+    'CpProofs.C17.parseQ_scale_le',
+    'CpProofs.C17.C17_charset_can_encode',
+    'CpProofs.C17.C17_charset_preferred',
+    'CpProofs.C17.C17_charset_406_only_if_none',
+    'CpProofs.C17.C17_charset_forced',
+    'CpProofs.C17.C17_charset_announced',
+    'CpProofs.C17.C17_charset_sound_partial',
+    'CpProofs.C17.C17_charset_sound_single',
+    'CpProofs.C17.C17_charset_sound_full_false',
+    'CpProofs.C17.C17_charset_stream_full_false',
+    'CpProofs.C17.C17_charset_star_ignores_explicit',
 ]
 LEVEL = 'proof'
 TECHNIQUE = ('Lean 4 proof over a hand model of encoding.compress / encoding.gzip / ResponseEncoder / header_elements '
